@@ -70,9 +70,10 @@ def accessors_disagree(rd):
     dec = rd.dec
     for r in dec.all_runs():
         ph, pa, rid = r.phenomenon_name, r.pattern.name, r.run_id
-        if dec.run_at(ph, pa, rid) is not r:
-            return f"run_at({ph!r}, {pa!r}, {rid!r}) is not the run all_runs() shows"
-        if not any(x is r for x in dec.runs_from(ph, pa)):
+        at = dec.run_at(ph, pa, rid)
+        if at is None or (at.run_id, at.block_index) != (rid, r.block_index):
+            return f"run_at({ph!r}, {pa!r}, {rid!r}) does not show the run all_runs() shows"
+        if not any((x.run_id, x.block_index) == (rid, r.block_index) for x in dec.runs_from(ph, pa)):
             return f"runs_from({ph!r}, {pa!r}) lacks run {rid}"
         # (a run a peer's record created AT its last block is stored halted -- arbitrary messages may say that; whether
         # a finished run may be stored is C12's business, not this oracle's)
